@@ -128,9 +128,9 @@ def structure_selectors(tier):
         for k in S.COMBS:
             out.append((S.cx(a, k, b), S.cx(c)))
     # three-compound chains with mixed combinators
-    c3 = [S.cp(S.T('a')), S.cp(S.T('b')), S.cp(None, ('pc', 'first-child')), S.cp(None, ('pc', 'last-child'))]
+    c3 = [S.cp(S.T('a')), S.cp(S.T('b')), S.cp(None, ('pc', 'first-child'))]
     if tier != 'quick':
-        c3 += [S.cp(S.T('*')), S.cp(None, ('pc', 'empty')), S.cp(None, ('pc', 'only-of-type')), S.cp(None, ('pc', 'root'))]
+        c3 += [S.cp(None, ('pc', 'last-child')), S.cp(S.T('*')), S.cp(None, ('pc', 'empty')), S.cp(None, ('pc', 'only-of-type')), S.cp(None, ('pc', 'root'))]
     for a, b, c in itertools.product(c3, repeat=3):
         for k1, k2 in itertools.product(S.COMBS, repeat=2):
             out.append((S.cx(a, k1, b, k2, c),))
